@@ -194,7 +194,10 @@ class TreeModel(Model):
         dom, sha, mode = self.entries(it, ref)
         if not it.path.branch(z3.Select(dom, idx.t)):
             it.raise_builtin("KeyError")
-        it.path.heap[ref.addr].fields["dom"] = z3.Store(dom, idx.t, z3.BoolVal(False))
+        f = it.path.heap[ref.addr].fields
+        f["dom"] = z3.Store(dom, idx.t, z3.BoolVal(False))
+        f["sha"] = z3.Store(sha, idx.t, S(""))
+        f["mode"] = z3.Store(mode, idx.t, z3.IntVal(0))
 
     def contains(self, it, ref, item):
         dom, _, _ = self.entries(it, ref)
@@ -210,10 +213,18 @@ EMPTY_MODE = z3.K(STR, z3.IntVal(0))
 
 def canon(it, dom, sha, mode):
     """Entries are compared extensionally on their domain: normalise the don't-care part."""
+    # entry maps are kept canonical by construction (sha == "" and mode == 0 outside the
+    # domain): deletions reset the slot, symbolic maps are assumed canonical (canonical_fact)
+    return dom, sha, mode
+
+
+def canonical_fact(it, dom, sha, mode):
+    key = ("canon", _tid(dom), _tid(sha), _tid(mode))
+    if key in it.path.memo:
+        return
+    it.path.memo[key] = True
     k = z3.FreshConst(STR, "k")
-    return (dom,
-            z3.Lambda([k], z3.If(z3.Select(dom, k), z3.Select(sha, k), S(""))),
-            z3.Lambda([k], z3.If(z3.Select(dom, k), z3.Select(mode, k), z3.IntVal(0))))
+    it.path.assume(z3.ForAll([k], z3.Implies(z3.Not(z3.Select(dom, k)), z3.And(z3.Select(sha, k) == S(""), z3.Select(mode, k) == 0))))
 
 
 def tree_new(it, a, k):
@@ -221,6 +232,7 @@ def tree_new(it, a, k):
 
 
 def tree_from_id(it, tid_t):
+    canonical_fact(it, TH_dom(tid_t), TH_sha(tid_t), TH_mode(tid_t))
     return new(it, TREE, {"dom": TH_dom(tid_t), "sha": TH_sha(tid_t), "mode": TH_mode(tid_t)})
 
 
@@ -348,6 +360,8 @@ class IndexModel(Model):
         if not it.path.branch(z3.Select(f["dom"], idx.t)):
             it.raise_builtin("KeyError")
         f["dom"] = z3.Store(f["dom"], idx.t, z3.BoolVal(False))
+        f["sha"] = z3.Store(f["sha"], idx.t, S(""))
+        f["mode"] = z3.Store(f["mode"], idx.t, z3.IntVal(0))
 
     def contains(self, it, ref, item):
         return z3.Select(F(it, ref)["dom"], item.t)
@@ -392,6 +406,7 @@ class RepoModel(Model):
             "path": VStr(P.const(name + ".path", STR)),
             "bare": VBool(P.const(name + ".bare", BOOL)),
         }
+        canonical_fact(it, fields["index_dom"], fields["index_sha"], fields["index_mode"])
         P.assume(fields["ncommits"].t >= 0)
         P.assume(fields["head"].isnone == (fields["ncommits"].t == 0))
         ref = new(it, REPO, fields)
@@ -626,6 +641,7 @@ def install(reg):
         f = _repo(it, repo)
         head = f["head"]
         tid = COMMIT_TREE(head.val.t)
+        canonical_fact(it, TH_dom(tid), TH_sha(tid), TH_mode(tid))
         dom = z3.If(head.isnone, EMPTY_DOM, TH_dom(tid))
         sha = z3.If(head.isnone, EMPTY_SHA, TH_sha(tid))
         mode = z3.If(head.isnone, EMPTY_MODE, TH_mode(tid))
